@@ -482,6 +482,9 @@ class ExprMixin:
             if not z3.is_int_value(j) or not z3.is_int_value(smt.simp(n)):
                 self.note_index(s, j)
             self.bound_ref(v)
+            et = self.seq_elem_type.get(smt.simp(s).get_id())
+            if et is not None:
+                self._add_axiom(self.type_formula(v, et))
             self.json_closed(obj, v)
             return v
         lk = c.lookup('__getitem__')
